@@ -297,10 +297,12 @@ static void mem_ops(struct lp_state *s, uint64_t r)
 			op = 3;
 		else {
 			uint32_t sz = pick_mem_size(r >> 11);
-			unsigned char *p = (r >> 40) & 1 ? rs_calloc(1, sz) : rs_malloc(sz);
+			bool zeroed = (r >> 40) & 1;
+			unsigned char *p = zeroed ? rs_calloc(1, sz) : rs_malloc(sz);
 			if(!p)
 				return;
-			fill_bytes(p, 0, sz, r);
+			/* a model may rely on the zeroes of rs_calloc: the second half of such a block is left as it came */
+			fill_bytes(p, 0, zeroed ? sz / 2 : sz, r);
 			s->bufs[s->nbuf].p = p;
 			s->bufs[s->nbuf].sz = sz;
 			s->bufs[s->nbuf].tag = (uint32_t)(r >> 20);
